@@ -20,7 +20,7 @@ RULE = ("period {1,2.5,10,3600(jump)} x duration profile {constant, growing, shr
 ASSUMPTIONS = ["Redis and RabbitMQ are wire-level fakes", "virtual time", "cron schedules not reachable (croniter absent)",
                "scheduled time of an iteration = the next_execution_time its message carried (for the first: deferred_until or timestamp+period)"]
 EVAL_COUNTER = "iterations_judged"
-REQUIRED = ["iterations_judged", "profile_shrinking", "profile_longer", "outcome_retry", "outcome_exhausted", "outcome_eager_exhausted", "outcome_store_fault", "first_run_deferred_until", "twin_chains_judged"]
+REQUIRED = ["iterations_judged", "profile_shrinking", "profile_longer", "outcome_retry", "outcome_exhausted", "outcome_eager_exhausted", "outcome_store_fault", "first_run_deferred_until", "twin_chains_judged", "timezone_offset_runs"]
 CASE_TIMEOUT = 150
 
 PROFILES = ["constant", "growing", "shrinking", "sawtooth", "longer"]
@@ -41,6 +41,11 @@ def gen_cases(tier, seed):
                         cases.append({"kind": kind, "p": p, "profile": prof, "outcomes": oc, "du": du, "iters": rnd.choice([8, 12]) if p >= 10 else rnd.choice([10, 16, 25]),
                                       "seed": rnd.randrange(10**6), "latency": None if kind == "mem" else 0.002})
         cases.append({"kind": kind, "p": 3600.0, "profile": "constant", "outcomes": "ok", "du": "none", "iters": 6, "seed": rnd.randrange(10**6), "latency": None, "jump": True})
+    # the same cadence rules on machines whose local time is not UTC (schedules are naive local datetimes)
+    for i, tz in enumerate(("JST-9", "CET-1", "EST5", "IST-5:30")):
+        for kind in ("mem", "redis", "rabbit"):
+            cases.append({"kind": kind, "p": 2.5, "profile": PROFILES[i % len(PROFILES)], "outcomes": ["ok", "retry", "exhausted", "ok"][i], "du": ["none", "ahead", "past", "far"][i], "iters": 8,
+                          "seed": rnd.randrange(10**6), "latency": None if kind == "mem" else 0.002, "tz": tz})
     # twins: two recurring jobs with the same actor name and the same id that differ only in queue (two workers) or only
     # in priority (one worker); their executions overlap in every iteration, each chain keeps its own successor
     for kind in ("mem", "redis", "rabbit"):
@@ -81,6 +86,9 @@ async def scenario(loop, case, out, stats, fps, samples):
     from rv.wl import World, run_worker
 
     kind, p, prof, oc = case["kind"], case["p"], case["profile"], case["outcomes"]
+    from rv.sim.loop import EPOCH_S
+
+    EPOCH = datetime.fromtimestamp(EPOCH_S)  # naive local time of virtual instant 0 (the module constant on a UTC machine)
     rnd = random.Random(case["seed"])
     w = World(loop, kind, converter="basic", seed=case["seed"], latency=case["latency"])
     try:
@@ -326,7 +334,23 @@ def run_case(case):
     stats = collections.Counter()
     out, fps, samples = [], set(), []
     sc = twins_scenario if case.get("twins") else scenario
-    res = vl.run(lambda loop: sc(loop, case, out, stats, fps, samples), max_steps=8_000_000, seed=case["seed"])
+    import os
+    import time as _time
+
+    old_tz = os.environ.get("TZ")
+    if case.get("tz"):
+        os.environ["TZ"] = case["tz"]
+        _time.tzset()
+        stats["timezone_offset_runs"] += 1
+    try:
+        res = vl.run(lambda loop: sc(loop, case, out, stats, fps, samples), max_steps=8_000_000, seed=case["seed"])
+    finally:
+        if case.get("tz"):
+            if old_tz is None:
+                os.environ.pop("TZ", None)
+            else:
+                os.environ["TZ"] = old_tz
+            _time.tzset()
     if res.exc is not None:
         if isinstance(res.exc, vl.StepLimit):
             return {"fp": None, "viol": [], "stats": dict(stats), "inconclusive": str(res.exc)}
